@@ -221,20 +221,33 @@ func (b *raftBackend) Del(keys [][]byte) (int64, error) {
 		return 0, err
 	}
 
-	resps, err := b.batchGetWithRetry(keys, version)
+	// A key named twice is removed (and counted) once; a key whose time to live
+	// has run out is absent even if nothing has cleaned it up yet.
+	keys = uniqueKeys(keys)
+	if len(keys) == 0 {
+		return 0, nil
+	}
+	request := make([][]byte, 0, len(keys)*2)
+	for _, key := range keys {
+		request = append(request, append([]byte(nil), key...), ttlMetaKey(key))
+	}
+	resps, err := b.batchGetWithRetry(request, version)
 	if err != nil {
 		return 0, err
 	}
 
+	now := uint64(time.Now().Unix())
 	mutations := make([]*pb.Mutation, 0, len(keys)*2)
 	var removed int64
 	for _, key := range keys {
 		resp := resps[string(key)]
-		if resp != nil && !resp.GetNotFound() && resp.GetError() == nil {
+		metaKey := ttlMetaKey(key)
+		expiresAt := decodeTTLFromResponse(resps[string(metaKey)])
+		expired := expiresAt > 0 && expiresAt <= now
+		if resp != nil && !resp.GetNotFound() && resp.GetError() == nil && !expired {
 			removed++
 		}
 		valueKey := append([]byte(nil), key...)
-		metaKey := ttlMetaKey(key)
 		mutations = append(mutations,
 			&pb.Mutation{Op: pb.Mutation_Delete, Key: valueKey},
 			&pb.Mutation{Op: pb.Mutation_Delete, Key: metaKey},
